@@ -1,8 +1,202 @@
 import Genshi.Wire
+import Genshi.WireCore
+import Genshi.Model.I18nTranslate
+import Genshi.Model.I18nExtract
+import Genshi.Model.I18nChoose
 namespace Driver.C19
-open Genshi
+open Genshi Genshi.I18n Genshi.Sexp
 
-/-- stub: the model driver for C19 is not built yet -/
-def handle : List Sexp → Option Sexp := fun _ => none
+/-! wire format of template events (harness/props/c19.py `tev`):
+    ( S qn ( ( qn ( av "v" ) | ( ap ( ( t "x" ) | ( x codemsgs ) ... ) ) ) ... ) )   ( E qn )   ( T "x" )
+    ( X id codemsgs )   ( XC codemsgs )   ( SUB ( dir ... ) ( event ... ) )   ( O "label" )
+    codemsgs = ( ( "func" val ) ... ),  val = ( one "s"|N ) | ( many "s"|N ... )
+    dir = ( domain "d" ) ( comment "c" ) ( ctxt "c" ) ( msg "p" ... ) ( choose "p" ... ) Singular Plural Strip ( other "n" ) -/
+
+def strs? (xs : List Sexp) : Option (List Str) := xs.mapM Sexp.toStr?
+
+def msgVal? : Sexp → Option MsgVal
+  | .list [.atom "one", v] => do let v ← optStr? v; pure (.one v)
+  | .list (.atom "many" :: vs) => do let vs ← vs.mapM optStr?; pure (.many vs)
+  | _ => none
+
+def codeMsgs? : Sexp → Option (List CodeMsg)
+  | .list xs => xs.mapM fun
+      | .list [.str f, v] => do let v ← msgVal? v; pure ⟨f, v⟩
+      | _ => none
+  | _ => none
+
+def dir? : Sexp → Option Dir
+  | .list [.atom "domain", .str d] => some (.domain d)
+  | .list [.atom "comment", .str c] => some (.comment c)
+  | .list [.atom "ctxt", .str c] => some (.ctxt c)
+  | .list (.atom "msg" :: ps) => do let ps ← strs? ps; pure (.msg ps)
+  | .list (.atom "choose" :: ps) => do let ps ← strs? ps; pure (.choose ps)
+  | .atom "Singular" => some .singular
+  | .atom "Plural" => some .plural
+  | .atom "Strip" => some .strip
+  | .list [.atom "other", .str n] => some (.other n)
+  | _ => none
+
+def apart? : Sexp → Option APart
+  | .list [.atom "t", .str s] => some (.text s)
+  | .list [.atom "x", m] => do let m ← codeMsgs? m; pure (.expr m)
+  | _ => none
+
+def aval? : Sexp → Option AVal
+  | .list [.atom "av", .str v] => some (.str v)
+  | .list [.atom "ap", .list ps] => do let ps ← ps.mapM apart?; pure (.parts ps)
+  | _ => none
+
+def tattrs? : Sexp → Option TAttrs
+  | .list xs => xs.mapM fun
+      | .list [n, v] => do let n ← QName.ofSexp? n; let v ← aval? v; pure (n, v)
+      | _ => none
+  | _ => none
+
+partial def tev? : Sexp → Option TEvent
+  | .list [.atom "S", t, a] => do let t ← QName.ofSexp? t; let a ← tattrs? a; pure (.start t a)
+  | .list [.atom "E", t] => do let t ← QName.ofSexp? t; pure (.end_ t)
+  | .list [.atom "T", .str s] => some (.text s)
+  | .list [.atom "X", i, m] => do let i ← i.toNat?; let m ← codeMsgs? m; pure (.expr i m)
+  | .list [.atom "XC", m] => do let m ← codeMsgs? m; pure (.exec m)
+  | .list [.atom "SUB", .list ds, .list body] => do
+      let ds ← ds.mapM dir?
+      let body ← body.mapM tev?
+      pure (.sub ds body)
+  | .list [.atom "O", .str l] => some (.other l)
+  | _ => none
+
+def tstream? : Sexp → Option TStream
+  | .list xs => xs.mapM tev?
+  | _ => none
+
+def ofOptStr : Option Str → Sexp
+  | some s => .str s
+  | none => .atom "N"
+
+def msgValOut : MsgVal → Sexp
+  | .one v => .list [.atom "one", ofOptStr v]
+  | .many vs => .list (.atom "many" :: vs.map ofOptStr)
+
+def codeMsgsOut (ms : List CodeMsg) : Sexp := .list (ms.map fun m => .list [.str m.func, msgValOut m.val])
+
+def dirOut : Dir → Sexp
+  | .domain d => .list [.atom "domain", .str d]
+  | .comment c => .list [.atom "comment", .str c]
+  | .ctxt c => .list [.atom "ctxt", .str c]
+  | .msg ps => .list (.atom "msg" :: ps.map .str)
+  | .choose ps => .list (.atom "choose" :: ps.map .str)
+  | .singular => .atom "Singular"
+  | .plural => .atom "Plural"
+  | .strip => .atom "Strip"
+  | .other n => .list [.atom "other", .str n]
+
+def apartOut : APart → Sexp
+  | .text s => .list [.atom "t", .str s]
+  | .expr m => .list [.atom "x", codeMsgsOut m]
+
+def avalOut : AVal → Sexp
+  | .str v => .list [.atom "av", .str v]
+  | .parts ps => .list [.atom "ap", .list (ps.map apartOut)]
+
+partial def tevOut : TEvent → Sexp
+  | .start t a => .list [.atom "S", t.toSexp, .list (a.map fun (n, v) => .list [n.toSexp, avalOut v])]
+  | .end_ t => .list [.atom "E", t.toSexp]
+  | .text s => .list [.atom "T", .str s]
+  | .expr i m => .list [.atom "X", ofNat i, codeMsgsOut m]
+  | .exec m => .list [.atom "XC", codeMsgsOut m]
+  | .sub ds body => .list [.atom "SUB", .list (ds.map dirOut), .list (body.map tevOut)]
+  | .other l => .list [.atom "O", .str l]
+
+def tstreamOut (s : TStream) : Sexp := .list (s.map tevOut)
+
+def cfg? : Sexp → Option Cfg
+  | .list [.list ig, .list inc, et] => do
+      let ig ← strs? ig; let inc ← strs? inc; let et ← et.toBool?
+      pure ⟨ig, inc, et⟩
+  | _ => none
+
+def frame? : Sexp → Option Frame
+  | .list [.atom "d", .str d] => some (.domain d)
+  | .list [.atom "c", .str c] => some (.context c)
+  | _ => none
+
+def ctx? : Sexp → Option Ctx
+  | .list xs => xs.mapM frame?
+  | _ => none
+
+/-- catalogue families both sides compute: `id`; `wrap` = `<domain|context|msg>`;
+    `pad` = ` msg ` (white space at the edges); `const` = `X`; `dup` = `msgmsg` -/
+def cat? : Sexp → Option Catalog
+  | .atom "id" => some Catalog.id
+  | .atom "wrap" => some ⟨fun d c s => '<' :: (d.getD []) ++ '|' :: (c.getD []) ++ '|' :: s ++ ['>']⟩
+  | .atom "pad" => some ⟨fun _ _ s => ' ' :: s ++ [' ']⟩
+  | .atom "const" => some ⟨fun _ _ _ => ['X']⟩
+  | .atom "dup" => some ⟨fun _ _ s => s ++ s⟩
+  | _ => none
+
+def errOut : Err → Sexp
+  | .indexError => .list [.atom "err", .atom "IndexError"]
+  | .keyError => .list [.atom "err", .atom "KeyError"]
+  | .typeError => .list [.atom "err", .atom "TypeError"]
+  | .stopIteration => .list [.atom "err", .atom "RuntimeError"]
+  | .attributeError => .list [.atom "err", .atom "AttributeError"]
+
+def lookupOut (l : Lookup) : Sexp := .list [ofOptStr l.domain, ofOptStr l.context, .str l.msgid]
+
+def messageOut (m : Message) : Sexp :=
+  .list [ofOptStr m.func, msgValOut m.val, .list (m.comments.map .str)]
+
+def exceptOut {α} (f : α → Sexp) : Except Err α → Sexp
+  | .ok a => .list [.atom "ok", f a]
+  | .error e => errOut e
+
+/-- guards: what the model does not cover is answered `unmodelled` -/
+def dirsOk (ds : List Dir) : Bool :=
+  (ds.filter fun d => match d with | .domain _ => true | _ => false).length ≤ 1 &&
+  (ds.filter fun d => match d with | .ctxt _ => true | _ => false).length ≤ 1 &&
+  (ds.filter fun d => match d with | .comment _ => true | _ => false).length ≤ 1 &&
+  ds.all fun d => match d with | .ctxt c => !c.isEmpty | .domain d => !d.isEmpty | _ => true
+
+partial def streamOk : TStream → Bool
+  | [] => true
+  | .sub ds body :: es => dirsOk ds && streamOk body && streamOk es
+  | _ :: es => streamOk es
+
+def handle : List Sexp → Option Sexp
+  | [.atom "translate", cfg, cat, ctx, tt, ta, s] => do
+      let cfg ← cfg? cfg; let cat ← cat? cat; let ctx ← ctx? ctx
+      let tt ← tt.toBool?; let ta ← ta.toBool?; let s ← tstream? s
+      if !streamOk s then pure (.atom "unmodelled") else
+      pure (.list [tstreamOut (translate cfg cat ctx tt ta s),
+                   .list ((lookups cfg ctx tt ta s).map lookupOut)])
+  | [.atom "extract", cfg, s] => do
+      let cfg ← cfg? cfg; let s ← tstream? s
+      if !streamOk s then pure (.atom "unmodelled") else
+      pure (exceptOut (fun ms => .list (ms.map messageOut)) (extract cfg s))
+  | [.atom "format", .list ps, s] => do
+      let ps ← strs? ps; let s ← tstream? s
+      pure (exceptOut (fun (b : MB) => .str b.format) (mbAppendList (MB.new ps) s))
+  | [.atom "parse", .str s] =>
+      some (exceptOut (fun ps => .list (ps.map fun (p : Nat × Str) => .list [ofNat p.1, .str p.2])) (parseMsg s))
+  | [.atom "mbtranslate", .list ps, s, .str tr] => do
+      let ps ← strs? ps; let s ← tstream? s
+      pure (exceptOut tstreamOut (do let b ← mbAppendList (MB.new ps) s; b.translate tr))
+  | [.atom "msggen", .list ps, cat, s] => do
+      let ps ← strs? ps; let cat ← cat? cat; let s ← tstream? s
+      pure (.list [exceptOut tstreamOut (msgGenerate ps (cat.lookup none none) s),
+                   exceptOut ofOptStr (msgId ps s)])
+  | [.atom "choose", .list ps, pl, cat, s] => do
+      let ps ← strs? ps; let pl ← pl.toBool?; let cat ← cat? cat; let s ← tstream? s
+      -- the catalogue families answer with the form the numeral selects
+      let ngt := fun (sg pl' : Str) => cat.lookup none none (if pl then pl' else sg)
+      match chooseCall ps pl ngt s with
+      | none => pure (.atom "unmodelled")
+      | some r => pure (exceptOut tstreamOut r)
+  | [.atom "reorder", .list ds] => do
+      let ds ← ds.mapM dir?
+      if !dirsOk ds then pure (.atom "unmodelled") else
+      pure (.list ((reorder ds).dirs.map dirOut))
+  | _ => none
 
 end Driver.C19
